@@ -21,7 +21,9 @@ RULE = ("configs: random line lists (length 0..18) mixing commands, comments wit
         "constructor rejects with ValueError ('ip route junk', 'access-list x', 'name x y': the parse raises, which C01 allows with factory "
         "on) and ones whose constructor error the factory swallows (the line falls back to the default class), 85 % with factory on, "
         "some indented / with trailing white space. get_text() is compared with the object texts on every parse. A factory parse of a "
-        "tuple that raises is re-run as a list (metamorphic control; known finding FC01a). "
+        "tuple that raises is re-run as a list: if the list form parses, no line was rejected by a typed model and the refusal of the "
+        "tuple is a violation (metamorphic control; this was finding FC01a -- every non-empty tuple was refused with factory=True --, "
+        "repaired in /repo by 'fix: ConfigList.bootstrap() accepts a tuple of lines with factory=True'). "
         "non-trivial = has an indented, blank or banner/macro line; distinct by request.")
 LEVEL_TEXT = ("Theorems (Lean 4, all line lists, every model configuration = ios / non-ios syntax x delimiter set x ignore_blank_lines): "
               "parse_texts: without ignore_blank_lines the model of ConfigList.bootstrap + commit returns exactly the input texts in order; "
@@ -40,7 +42,8 @@ LEVEL_NOTE = ("Trusted: Lean kernel, standard axioms, the harness. Modelled not 
               "typed-model factory as 'may reject a line' (its acceptance is not modelled, so the design's parse_factory_lossless is covered by the "
               "correspondence only; a factory parse that returns is compared like any other). The parse options debug / auto_commit / "
               "auto_indent_width and the sequence type of the config are not inputs of the model: the correspondence shows that they do not "
-              "change the answer. Anchored statements never executed by the quick run: 89 of 286 before the coverage streams, 70 after; the "
+              "change the answer (tuple + factory included since FC01a is repaired; the oracle's list-form control turns a refusal of the "
+              "container type into a violation). Anchored statements never executed by the quick run: 89 of 286 before the coverage streams, 70 after; the "
               "rest is argument validation that CiscoConfParse.__init__ makes unreachable, direct-construction API and dead code "
               "(notes/design_notes.json, C01).")
 ASSUMPTIONS = ["no lone surrogates in line texts", "ignore_blank_lines together with factory is outside the constructor's domain"]
@@ -145,12 +148,6 @@ def oracle(case, ans):
     if nums != wire.enc_nats(range(len(texts))):
         fails.append(f"line numbers are {nums[:60]}")
     return fails
-
-
-def known_id(case, failure):
-    if failure.startswith("tuple-form-rejected"):
-        return "FC01a"
-    return None
 
 
 def nontrivial(case):
